@@ -18,6 +18,7 @@ from vlib.boot import B, drive
 from vlib.ob import obligation, smt_obligation
 from vlib.world import EVA, EVA2, StubPolicy, world_ab, world_ab_valid
 from vlib import h_retry as H
+from vlib.h_tools import reset_module_containers
 
 import workflows.context.internal_context as ic_mod
 import workflows.plugins.basic as basic_mod
@@ -217,6 +218,59 @@ def ob_reducer_feeds_policy(nw: int, b1: bool, q: int, wid: int, a: int, t0: int
         return False
     e = fail_pub[0]
     return e.attempts == a + 1 and e.elapsed_seconds == dt and e.exception is exc and e.step_name == "a" and fail_cmd[0].exception is exc
+
+
+class _SeedPolicy:
+    """a policy of the current protocol: next(elapsed_time, attempts, error, *, seed=None)"""
+
+    def __init__(self) -> None:
+        self.calls: list = []
+
+    def next(self, elapsed_time, attempts, error, *, seed=None):
+        self.calls.append((elapsed_time, attempts, error, seed))
+        return 2
+
+
+class _LegacyPolicy:
+    """a policy written against the older protocol: next(elapsed_time, attempts, error)"""
+
+    def __init__(self) -> None:
+        self.calls: list = []
+
+    def next(self, elapsed_time, attempts, error):
+        self.calls.append((elapsed_time, attempts, error))
+        return 2
+
+
+@obligation(quick=90, thorough=200,
+            what="two workflows in one process whose failing steps have the SAME name but retry policies of different kinds (current protocol with "
+                 "the seed keyword / legacy three-argument next), failures reduced in either order: each policy is asked once, with the "
+                 "elapsed time and attempt number of ITS failure, and its answer becomes the retry (nothing learnt about one step's policy "
+                 "is applied to the other's)",
+            bounds={"order": "seed-policy first / legacy first / same kind twice", "attempts": "0..2"})
+def ob_same_step_name_other_policy_kind(first: int, second: int, a: int) -> bool:
+    """
+    pre: 0 <= first <= 1 and 0 <= second <= 1 and 0 <= a <= 2
+    post: _
+    """
+    first, second = H.fork_int(first, 0, 1), H.fork_int(second, 0, 1)
+    import workflows.runtime.control_loop as _cl
+
+    reset_module_containers(_cl)      # each explored order starts from a fresh process image of the engine module
+    ok = True
+    for kind in (first, second):
+        policy = _SeedPolicy() if kind == 0 else _LegacyPolicy()
+        st = world_ab(1, True, False, False, 0, att=a, policy=policy, t0=1)
+        exc = ValueError("boom")
+        tick = TickStepResult.model_construct(step_name="a", worker_id=0, event=EVA,
+                                              result=[StepWorkerFailed.model_construct(exception=exc, failed_at=3)])
+        st2, cmds = _reduce_tick(tick, st, 3, "r")
+        retry_cmds = [c for c in cmds if isinstance(c, CommandQueueEvent) and c.event is EVA and c.attempts is not None]
+        if len(policy.calls) != 1 or policy.calls[0][0] != 2 or policy.calls[0][1] != a + 1 or policy.calls[0][2] is not exc:
+            ok = False
+        if len(retry_cmds) != 1 or retry_cmds[0].delay != 2 or retry_cmds[0].attempts != a + 1:
+            ok = False
+    return ok
 
 
 class _ClockAdapter:
